@@ -178,6 +178,8 @@ enum Chunk {
     ConfigGrid(usize),
     /// every program of the type-checker-configuration family under one configuration variant
     TcConfig(usize),
+    /// programs whose slot types refer to themselves or to each other (slice of 8)
+    RecursiveTypes(usize),
 }
 
 /// Programs for the type-checker configurations: the grid programs and one idiom program per representative kind.
@@ -333,6 +335,9 @@ fn plan(tier: Tier) -> Vec<Chunk> {
     }
     for i in 0..crate::obs::TC_VARIANTS {
         v.push(Chunk::TcConfig(i));
+    }
+    for i in 0..8 {
+        v.push(Chunk::RecursiveTypes(i));
     }
     let mutated = if tier.thorough() { small_corpus().len() } else { 1 };
     for (ci, c) in small_corpus().iter().enumerate().take(mutated) {
@@ -491,6 +496,13 @@ impl Check for C01 {
                 }
                 let _ = template_name(t);
             }
+            Chunk::RecursiveTypes(slice) => {
+                for (i, code) in crate::c02::recursive_type_programs().into_iter().enumerate() {
+                    if i % 8 == slice {
+                        run(ctx, "recursive_slot_types", &code, &all);
+                    }
+                }
+            }
             Chunk::TcConfig(variant) => {
                 for code in tc_programs() {
                     for permissive in [false, true] {
@@ -559,7 +571,7 @@ impl Check for C01 {
              28 multi-operand opcodes (<= 3 non-zero operands above arity 4) x 3 consumer tails; {} pipeline templates (mask/shift/ \
              divide/multiply packing, mapping offset, array index, hashed memory, exp/sar/signextend/byte, return/log/revert) x B x B \
              with |B| = {}; every prefix of the {} smallest shipped contracts and every single-byte substitution (12 replacement bytes incl. STOP, JUMPDEST, \
-             JUMP, JUMPI, PUSH1, PUSH32, SHL, SHR, SHA3, SLOAD, SSTORE, SELFDESTRUCT) at every offset of the smallest one (thorough: of all of them); up to 19 loop-free programs (the templates with benign constants, a fork chain, a two-variable idiom program, a copy / load / store) under EVERY configuration whose five limits are each 1, 7, the default or usize::MAX, in both error modes (2 048 configurations); those programs and one idiom program per representative kind under 31 type-checker configurations built from the public passes and rules (default, no passes, no rules, neither, each single pass left out, each single rule left out, passes reversed, the extra public rule added). Each input goes through analyze() and through the \
+             JUMP, JUMPI, PUSH1, PUSH32, SHL, SHR, SHA3, SLOAD, SSTORE, SELFDESTRUCT) at every offset of the smallest one (thorough: of all of them); up to 19 loop-free programs (the templates with benign constants, a fork chain, a two-variable idiom program, a copy / load / store) under EVERY configuration whose five limits are each 1, 7, the default or usize::MAX, in both error modes (2 048 configurations); those programs and one idiom program per representative kind under 31 type-checker configurations built from the public passes and rules (default, no passes, no rules, neither, each single pass left out, each single rule left out, passes reversed, the extra public rule added); 280 programs whose slot types refer to themselves or to each other (a slot's value used as index / key into the same or another container). Each input goes through analyze() and through the \
              staged API (results must agree) under a panic guard; aborts and hangs are attributed by the process supervisor. \
              non-trivial = (input, configuration) that got past execution into the type checker; distinct by content",
             if tier.thorough() { " and 3 (length 3: default configuration)" } else { "" },
